@@ -75,11 +75,20 @@ fn pad(a: &Args) -> Args {
 fn begin_decode(a: &Args) -> Args {
     let id = argn(a, 1) as u16;
     match BeginRequest::from_bytes(arr8(a, 0)) {
-        Ok(b) => vec![
-            vec![1, u128::from(u16::from(b.role)), u128::from(u8::from(b.flags))],
-            nums(&b.to_bytes()),
-            nums(&b.to_record(id)),
-        ],
+        Ok(b) => {
+            // RequestFlags::validate: Ok exactly when no bit besides KeepConn is set, otherwise the unknown bits are named
+            let raw = u8::from(b.flags);
+            match b.flags.validate() {
+                Ok(()) => assert_eq!(raw & !1, 0, "validate accepted unknown flag bits"),
+                Err(fcgi::Error::UnknownFlags(u)) => assert!(u == raw & !1 && u != 0, "validate names the wrong bits"),
+                Err(e) => panic!("unexpected error {e:?}"),
+            }
+            vec![
+                vec![1, u128::from(u16::from(b.role)), u128::from(u8::from(b.flags))],
+                nums(&b.to_bytes()),
+                nums(&b.to_record(id)),
+            ]
+        },
         Err(fcgi::Error::UnknownRole(r)) => vec![vec![0, r.into()]],
         Err(e) => panic!("unexpected error {e:?}"),
     }
@@ -118,6 +127,14 @@ fn exit_map(a: &Args) -> Args {
         None => vec![vec![0]],
         Some(s) => {
             let e = EndRequest::from(s);
+            if argn(a, 0) == 0 {
+                // the conversion from a plain exit code and the default status
+                let f = EndRequest::from(ExitStatus::from(argn(a, 1) as u32));
+                assert_eq!((f.app_status, u8::from(f.protocol_status)), (e.app_status, u8::from(e.protocol_status)), "From<u32> for ExitStatus");
+                let d = EndRequest::from(ExitStatus::default());
+                let z = EndRequest::from(ExitStatus::SUCCESS);
+                assert_eq!((d.app_status, u8::from(d.protocol_status)), (z.app_status, u8::from(z.protocol_status)), "Default for ExitStatus");
+            }
             vec![vec![1, e.app_status.into(), u128::from(u8::from(e.protocol_status))]]
         },
     }
